@@ -101,7 +101,7 @@ static inline void* src_make(PV* vals, unsigned cnt, unsigned r)
 {
     for (unsigned i = 0; i < cnt; i++) vals[i] = nd_pv();
     void* blk = d_sym_block(u64(cnt) * ESZ);
-    lg_register(r, blk, u64(cnt) * ESZ);
+    lg_register(r, blk, u64(cnt) * ESZ); lg_layout(r, 0, ESZ);
     k_mk_array(blk, vals, cnt);
     lg_expect(r, 0, cnt, ESZ, TAG);
     return blk;
@@ -116,7 +116,8 @@ static inline void src_fin(void* blk, unsigned cnt, unsigned r)
 }
 
 // ---- static_vector in ledger region r
-static inline void* sv_raw(unsigned r) { void* p = d_sym_block(k_sv_sizeof()); lg_register(r, p, k_sv_sizeof()); return p; }
+static inline void sv_reg(void* p, unsigned r) { lg_register(r, p, k_sv_sizeof()); if (CAP > 0) lg_layout(r, k_sv_data_off(p), ESZ); } // data() of a raw block is only address arithmetic
+static inline void* sv_raw(unsigned r) { void* p = d_sym_block(k_sv_sizeof()); sv_reg(p, r); return p; }
 static inline void sv_check(void* p, M const& m, unsigned r)
 {
     u64 n = k_sv_size(p);
@@ -345,7 +346,7 @@ Q q_sv_swap_self() // v.swap(v) leaves the value unchanged
 // =====================================================================================================================
 // inplace_vector
 // =====================================================================================================================
-static inline void* iv_raw(unsigned r) { void* p = d_sym_block(k_iv_sizeof()); lg_register(r, p, k_iv_sizeof()); return p; }
+static inline void* iv_raw(unsigned r) { void* p = d_sym_block(k_iv_sizeof()); lg_register(r, p, k_iv_sizeof()); if (CAP > 0) lg_layout(r, k_iv_data_off(p), ESZ); return p; }
 static inline void iv_check(void* p, M const& m, unsigned r)
 {
     u64 n = k_iv_size(p);
@@ -423,7 +424,7 @@ Q q_iv_move_ctor() // the source stays a valid vector (some size <= capacity, ex
 // =====================================================================================================================
 // stack<E, static_vector<E,CAP>>
 // =====================================================================================================================
-static inline void* st_raw(unsigned r) { void* p = d_sym_block(k_st_sizeof()); lg_register(r, p, k_st_sizeof()); return p; }
+static inline void* st_raw(unsigned r) { void* p = d_sym_block(k_st_sizeof()); lg_register(r, p, k_st_sizeof()); if (CAP > 0) lg_layout(r, k_sv_data_off(p), ESZ); return p; } // the container is the only member
 static inline void st_check(void* p, M const& m, unsigned r)
 {
     u64 n = k_st_size(p);
@@ -534,13 +535,13 @@ static void sv_hist(void* p, void* q, M const& m) // q: scratch block for a seco
             case 4: k_sv_clear(p); n.clear(); next(n); break;
             case 5: split_q<CAP>(a, [&](u64 ca) { M n2 = m; k_sv_resize1(p, ca); n2.resize((unsigned)ca, PV(0)); next(n2); }); break;
             case 6: if (m.n < CAP) split_q<CAP>(a, [&](u64 ca) { if (ca <= m.n) { M n2 = m; u64 r = k_sv_insert_r(p, ca, x); u64 e = n2.insert_fill((unsigned)ca, 1, x); vf_assert(r == e, "history: insert(pos,&&) iterator"); next(n2); } }); break;
-            case 7: { lg_register(1, q, k_sv_sizeof()); k_sv_move_ctor(q, p); sv_check(q, m, 1); k_sv_dtor(p); lg_expect(0, 0, 0, ESZ, TAG);   // relocate through a second vector:
+            case 7: { sv_reg(q, 1); k_sv_move_ctor(q, p); sv_check(q, m, 1); k_sv_dtor(p); lg_expect(0, 0, 0, ESZ, TAG);   // relocate through a second vector:
                       k_sv_move_ctor(p, q); k_sv_dtor(q); lg_expect(1, 0, 0, ESZ, TAG); next(n); break; }                       // move out, destroy, move back, destroy
             case 8: split_q<CAP>(a, [&](u64 ca) { split_q<CAP>(b, [&](u64 cb) { if (ca <= m.n && cb <= CAP - m.n) {
                         M n2 = m; u64 r = k_sv_insert_fill(p, ca, cb, x); u64 e = n2.insert_fill((unsigned)ca, (unsigned)cb, x); vf_assert(r == e, "history: insert(pos,n,v) iterator"); next(n2); } }); }); break;
             case 9: split_q<CAP>(a, [&](u64 ca) { M n2 = m; k_sv_assign_fill(p, ca, x); n2.assign_fill((unsigned)ca, x); next(n2); }); break;
-            case 10: { lg_register(1, q, k_sv_sizeof()); k_sv_copy_ctor(q, p); k_sv_clear(p); k_sv_copy_assign(p, q); k_sv_dtor(q); lg_expect(1, 0, 0, ESZ, TAG); next(n); break; } // copy out, clear, copy-assign back
-            default: { lg_register(1, q, k_sv_sizeof()); k_sv_new(q); k_sv_swap_member(q, p); sv_check(q, m, 1); k_sv_move_assign(p, q); k_sv_dtor(q); lg_expect(1, 0, 0, ESZ, TAG); next(n); break; } // swap out, move-assign back
+            case 10: { sv_reg(q, 1); k_sv_copy_ctor(q, p); k_sv_clear(p); k_sv_copy_assign(p, q); k_sv_dtor(q); lg_expect(1, 0, 0, ESZ, TAG); next(n); break; } // copy out, clear, copy-assign back
+            default: { sv_reg(q, 1); k_sv_new(q); k_sv_swap_member(q, p); sv_check(q, m, 1); k_sv_move_assign(p, q); k_sv_dtor(q); lg_expect(1, 0, 0, ESZ, TAG); next(n); break; } // swap out, move-assign back
             }
         });
     }
